@@ -1198,9 +1198,131 @@ def c11_guard_case(fname, n):
     return None if (k == 'err' and isinstance(b, TypeError)) else ('TypeError', '%s %r' % (k, b))
 
 
+C11_CHILD = r"""
+import sys, json, os
+sys.path.insert(0, os.environ['VERIF_TOOLS'])
+import real
+from real import encode
+BIG = 2 ** 70
+out = []
+for step in json.load(sys.stdin):
+    op, arg = step
+    try:
+        if op == 'on':
+            encode.support_deprecated_rabbitmq(True); r = 'ok'
+        elif op == 'default':
+            encode.support_deprecated_rabbitmq(); r = 'ok'
+        elif op == 'off':
+            encode.support_deprecated_rabbitmq(False); r = 'ok'
+        elif op == 'refuse':
+            v = {'table': {'a': 1, 'k': BIG}, 'array': [1, BIG], 'nested': {'a': [{'b': b'raw'}]}, 'key': {5: 1}, 'top': BIG,
+                 'value': object(), 'deep': [[{'x': [BIG]}]]}[arg]
+            f = {'table': encode.field_table, 'array': encode.field_array, 'nested': encode.field_table, 'key': encode.field_table,
+                 'top': encode.table_integer, 'value': encode.encode_table_value, 'deep': encode.field_array}[arg]
+            f(v); r = 'ok'
+        elif op == 'probe':
+            n = arg
+            r = [encode.table_integer(n).hex(), encode.encode_table_value(n).hex(), encode.field_array([n]).hex(),
+                 encode.field_table({'k': [{'n': n}]}).hex(), encode.encode_table_value([[n]]).hex()]
+    except Exception as e:
+        r = 'err ' + type(e).__name__
+    out.append(r)
+json.dump(out, sys.stdout)
+"""
+
+
+def c11_scenario_expect(steps):
+    state = False
+    exp = []
+    for op, arg in steps:
+        if op in ('on', 'default'):
+            state = True
+            exp.append('ok')
+        elif op == 'off':
+            state = False
+            exp.append('ok')
+        elif op == 'refuse':
+            exp.append('err TypeError')
+        else:
+            e = first_fit(arg, state)
+            exp.append([e.hex(), e.hex(), (struct.pack('>I', len(e)) + e).hex(),
+                        (struct.pack('>I', 14 + len(e)) + b'\x01kA' + struct.pack('>I', 7 + len(e)) + b'F' + struct.pack('>I', 2 + len(e)) + b'\x01n' + e).hex(),
+                        (b'A' + struct.pack('>I', 5 + len(e)) + b'A' + struct.pack('>I', len(e)) + e).hex()])
+    return exp
+
+
+def c11_spawn(steps):
+    env = dict(os.environ, VERIF_TOOLS=os.path.dirname(os.path.abspath(__file__)), PAMQP_REPO=real.REPO, PYTHONDONTWRITEBYTECODE='1')
+    p = subprocess.Popen([sys.executable, '-B', '-c', C11_CHILD], stdin=subprocess.PIPE, stdout=subprocess.PIPE, stderr=subprocess.PIPE, env=env)
+    p.stdin.write(json.dumps(steps).encode())
+    p.stdin.close()
+    return p
+
+
+def c11_collect(p, steps):
+    o = p.stdout.read()
+    e = p.stderr.read()
+    p.wait()
+    if p.returncode != 0:
+        return ('scenario runs', 'child failed: ' + e.decode('utf-8', 'replace')[-300:])
+    got = json.loads(o)
+    exp = c11_scenario_expect(steps)
+    for i, (g_, e_) in enumerate(zip(got, exp)):
+        if g_ != e_:
+            return ('step %d %r: %r' % (i, steps[i], e_), repr(g_))
+    return None
+
+
+@replayer
+def c11_scenario_case(steps):
+    """a toggle / refusal / encode sequence run in a FRESH interpreter (state that is set by the first event
+    of a process would be masked inside a long-lived one): every probe must show the tags of the switch as last set"""
+    steps = [list(s_) for s_ in steps]
+    return c11_collect(c11_spawn(steps), steps)
+
+
+def c11_scenarios(ctx, res):
+    g = ctx.gen
+    alphabet = [('on', None), ('default', None), ('off', None)] + [('refuse', k) for k in ('table', 'array', 'nested', 'key', 'top', 'value', 'deep')]
+    probes = [40000, 3000000000, 200, -5, 65535, 32768, 2 ** 31, 2 ** 32 - 1]
+    scen = []
+    # systematic: switch state x refusal kind x switch back, then probes; plus random walks
+    for first in ('on', 'default', 'off'):
+        for kind in ('table', 'array', 'nested', 'key', 'top', 'value', 'deep'):
+            for second in ('off', 'on'):
+                scen.append([(first, None), ('refuse', kind), (second, None)] + [('probe', n) for n in probes[:4]])
+    for _ in range(60 if ctx.thorough else 14):
+        steps = []
+        for _ in range(g.r.randrange(2, 9)):
+            steps.append(g.r.choice(alphabet))
+            if g.r.random() < 0.5:
+                steps.append(('probe', g.r.choice(probes)))
+        steps += [('probe', n) for n in g.r.sample(probes, 3)]
+        scen.append(steps)
+    if not ctx.thorough:
+        scen = scen[::2] if len(scen) > 40 else scen
+    pending = []
+    for steps in scen:
+        steps = [list(s_) for s_ in steps]
+        pending.append((steps, c11_spawn(steps)))
+        if len(pending) >= 12:
+            st, p = pending.pop(0)
+            c11_finish(res, st, p)
+    for st, p in pending:
+        c11_finish(res, st, p)
+
+
+def c11_finish(res, steps, p):
+    res.case('scenario %r' % (steps,), tag='fresh-process scenario', sample={'steps': [s_[0] for s_ in steps]})
+    bad = c11_collect(p, steps)
+    if bad:
+        res.violation('toggle / refusal scenario in a fresh interpreter', {'fn': 'c11_scenario_case', 'args': pyrepr((steps,))}, bad[0], bad[1])
+
+
 def oracle_c11(ctx):
     res = Result('c11.ladder')
     g = ctx.gen
+    c11_scenarios(ctx, res)
     vals = list(g.int_bounds) + (list(range(-70000, 70001)) if ctx.thorough else list(range(-700, 701)) + list(range(32000, 33000, 7)) + list(range(65000, 66000, 7)))
     vals += [g.integer() for _ in range(4000 if ctx.thorough else 600)]
     for i, n in enumerate(vals):
@@ -2276,7 +2398,8 @@ sys.path.insert(0, os.environ['VERIF_TOOLS'])
 import gen, lanes, real
 class Ctx: pass
 spec = json.load(sys.stdin)
-ctx = Ctx(); ctx.thorough = False; ctx.generated = json.load(open(spec['generated'])); ctx.literals = []
+import spec_tables
+ctx = Ctx(); ctx.thorough = False; ctx.generated = dict(json.load(open(spec['generated'])), catalogue=spec_tables.catalogue()); ctx.literals = []
 ctx.gen = gen.Gen(spec['seed'])
 ops = lanes.api_ops(ctx, spec['n'])
 out = {}
